@@ -64,14 +64,17 @@ TMakeMove ==
   /\ LET r == Rec[l]
          m == MvOf(r.m)
          p == EvPos(r)
+         \* the position the game is in afterwards: the logged one when the rules allow it, else the rules' own -
+         \* draw claims are judged on the game that was really played, not on what the library believes it to be
+         n == IF m \in LegalMoves(cur) /\ p \notin Succ(cur, m) THEN Apply(cur, m) ELSE p
      IN /\ dom' = dom
         /\ IF ~dom THEN UNCHANGED gvars
            ELSE /\ Judge10(r.ret = MoveOK(m))
                 /\ IF r.ret
                    THEN /\ Judge10(p \in Succ(cur, m))
                         /\ (IF cur.b[m.f] = Empty THEN Stay     \* cannot interpret: follow nothing
-                            ELSE IF Irreversible(cur, m) THEN Follow(r, AMove(m), p, 0, <<p>>)
-                            ELSE Follow(r, AMove(m), p, halfmove + 1, Append(seen, p)))
+                            ELSE IF Irreversible(cur, m) THEN Follow(r, AMove(m), n, 0, <<n>>)
+                            ELSE Follow(r, AMove(m), n, halfmove + 1, Append(seen, n)))
                    ELSE Stay
                 /\ Judge10(AfterOK(r))
                 /\ Judge11(ClaimObsOK(r))
